@@ -756,7 +756,11 @@ class FnSpec:
                 if hasattr(x.ty, "is_none"):
                     return x.ty.is_none(x.term)
                 return False
+            if isinstance(x, Opaque):
+                raise OutOfSubset("`is None` on the opaque value %r at line %s" % (x, getattr(node, "lineno", "?")))
             return False
+        if isinstance(a, Opaque) or isinstance(b, Opaque):
+            raise OutOfSubset("identity test on an opaque value at line %s" % getattr(node, "lineno", "?"))
         if not _symbolic(a) and not _symbolic(b):
             return a is b
         return self.eq(eng, a, b, node)
@@ -820,7 +824,11 @@ class FnSpec:
             return container.has(container.kty.lift(x).term)
         if isinstance(container, EmptyDict):
             return False
+        if isinstance(x, Opaque) or isinstance(container, Opaque):
+            raise OutOfSubset("membership test on an opaque value at line %s" % getattr(node, "lineno", "?"))
         if isinstance(container, (list, tuple, set, frozenset)):
+            if any(isinstance(c, Opaque) for c in container):
+                raise OutOfSubset("membership test on an opaque value at line %s" % getattr(node, "lineno", "?"))
             if not _symbolic(x) and all(not _symbolic(c) for c in container):
                 return x in container
             r = False
